@@ -915,9 +915,25 @@ def oracle_scipy(inp):
   dim = len(inp["lb"])
   lb, ub, cons = inp["lb"], inp["ub"], inp["cons"]
   dom = L.CD(numpy.array([[l, u] for l, u in zip(lb, ub)], dtype=float))
+  coef = inp["coef"]
+  if inp.get("earlier_cons"):
+    dom.set_constraint_list([dict(weights=numpy.array(c[:-1], dtype=float), rhs=float(c[-1])) for c in inp["earlier_cons"]])
+
+    class Plain(L.opt.ScipyOptimizable):
+      differentiable = True
+      current_point = numpy.array([(l + u) / 2 for l, u in zip(lb, ub)], dtype=float)
+
+      def compute_objective_function(self):
+        return smooth_af(coef, self.current_point)
+
+      def compute_grad_objective_function(self):
+        return numpy.array([-2 * a * (x - c) for a, c, x in zip(coef["a"], coef["c"], self.current_point)])
+    try:
+      L.opt.SLSQPOptimizer(dom, Plain()).optimize()      # the earlier run (its outcome is not this case's subject)
+    except Exception:  # noqa: BLE001
+      pass
   if cons:
     dom.set_constraint_list([dict(weights=numpy.array(c[:-1], dtype=float), rhs=float(c[-1])) for c in cons])
-  coef = inp["coef"]
 
   class Obj(L.opt.ScipyOptimizable):
     differentiable = True
@@ -1240,6 +1256,13 @@ def gen_search(rng):
     inp.update(lr=rng.choice([0.001, 0.01, 0.1, 1.0]) * scale, n=rng.randint(1, 10))
   else:
     inp.update(nm=rng.randint(1, 4), slsqp=bool(cons) or rng.random() < 0.5, fixed=[], approx_grad=rng.random() < 0.4)
+    if cons and rng.random() < 0.5:
+      # the domain object has a life before this optimisation: it was given OTHER constraints first (same box), served a constrained SLSQP run,
+      # and was then handed the present constraints through the public setter - "the domain" of the clause is the one it is now (C07_m14)
+      inp["earlier_cons"] = [[w for w in c[:-1]] + [c[-1] * scale] for c in gen_domain(rng, dim, True, False)[3]]
+      inp["earlier_cons"] = [[w for w in c[:-1]] + [sum(w * (l + u) / 2 for w, l, u in zip(c[:-1], lb, ub))
+                                                    - rng.choice([0.25, 0.5, 0.75]) * sum(abs(w) * (u - l) / 2 for w, l, u in zip(c[:-1], lb, ub))]
+                             for c in inp["earlier_cons"]]
   return inp
 
 
